@@ -154,6 +154,15 @@ class Loose(object):
         return self._rec.bundle.valid_qualified_name(x)
 
 
+def _text_digest(c):
+    import hashlib
+    try:
+        text = "\n".join(sorted(r.get_provn() for r in c.get_records()))
+    except Exception as e:
+        text = "!" + type(e).__name__
+    return hashlib.sha1(text.encode("utf-8", "replace")).hexdigest()[:10]
+
+
 def inspect_records(doc):
     """Calls the read-only public accessors of every record (as a user inspecting a document would
     before exporting it).  They must not change what any writer emits afterwards."""
@@ -315,6 +324,9 @@ class World(object):
             ident = c.identifier
             p["id"] = uri_segs(ident.uri) if ident is not None else []
             p["bundles"] = [self.handle_of(b) for b in c.bundles] if c.is_document() else []
+            # how the records of this container PRINT (digest): the same URIs under a prefix the
+            # container does not declare are not the same observable content
+            p["txt"] = _text_digest(c)
             con[k] = p
         return {"ns": {k: proj_ns(c) for k, c in self.h.items()}, "con": con}
 
